@@ -1,7 +1,10 @@
 (* C05 — every aligned read is accounted for; region splitting loses or duplicates none.
    Property theorems only; model and proofs live in Regions.v (decidable specifications for the harness: RegionsCorr.v).
-   The model describes src/alignment_processor.py after fixes/C05_split_last_bin.diff and fixes/C05_inmemory_end_bin.diff;
-   the loops as they were before are `forward_cur` and refuted below.
+   The model describes src/alignment_processor.py after fixes/C05_split_last_bin.diff, fixes/C05_inmemory_end_bin.diff and
+   fixes/C05_first_subregion_start.diff (`iq_split_regions`, `iq_forward`); the code before the third repair is
+   `iq_split_regions_prev` / `iq_forward_prev` (theorems `..._prev`, with the one-base corner exempted and refuted below), the
+   loops as they were before the first two are `forward_cur` and refuted below.  harness/props/c05.py detects which of the
+   two variants of split_coverage_regions is checked out and uses the matching model and specification.
    An alignment is (reference_start, reference_end, id) as pysam reports it; regions are closed 0-based intervals. *)
 From Coq Require Import ZArith List Bool.
 From IQ Require Import Regions RegionsCorr.
@@ -24,36 +27,34 @@ Proof. exact (clusters_separated AP_COVERAGE_BIN iq_bin_pos). Qed.
 Print Assumptions C05_clusters_separated.
 
 (* ---- split_coverage_regions: for ALL coverage functions, region lengths and read counts the function returns, and the
-   sub-regions are the whole region, or consecutive non-empty intervals that tile it from max(256 * first bin + 1, r0) to r1 *)
+   sub-regions are consecutive non-empty intervals that tile the region from r0 to r1 (`chain`: first starts at r0, each
+   starts one past the end of its predecessor, the last ends at r1) *)
 Theorem C05_split_regions_tile : forall r count cov first last,
   fst r <= snd r -> first = fst r / AP_COVERAGE_BIN -> last = snd r / AP_COVERAGE_BIN ->
   (forall p, last < p -> cov p <= AP_ABS_COV_VALLEY) ->
-  exists regs, iq_split_regions r count cov first last = Some regs /\
-    (regs = [r] \/ chain (Z.max (first * AP_COVERAGE_BIN + 1) (fst r)) (snd r) regs).
+  exists regs, iq_split_regions r count cov first last = Some regs /\ chain (fst r) (snd r) regs.
 Proof. exact iq_split_regions_tile. Qed.
 Print Assumptions C05_split_regions_tile.
 
 (* the same for every choice of the constants (positive bin size): this is what the scaled unit correspondence exercises *)
 Theorem C05_split_regions_tile_any_constants : forall BIN MAXLEN MINREADS ABSV RN RD, 0 < BIN ->
   forall r count cov first last, fst r <= snd r -> first = fst r / BIN -> last = snd r / BIN -> (forall p, last < p -> cov p <= ABSV) ->
-  exists regs, split_regions BIN MAXLEN MINREADS ABSV RN RD r count cov first last = Some regs /\
-    (regs = [r] \/ chain (Z.max (first * BIN + 1) (fst r)) (snd r) regs).
+  exists regs, split_regions BIN MAXLEN MINREADS ABSV RN RD r count cov first last = Some regs /\ chain (fst r) (snd r) regs.
 Proof. exact split_regions_tile. Qed.
 Print Assumptions C05_split_regions_tile_any_constants.
 
-(* ---- forward_alignments: every alignment of a cluster is handed to the processing of at least one (sub-)region.
-   The only exception is stated exactly: a ONE-BASE alignment on the first base of a cluster that starts on a bin boundary. *)
+(* ---- forward_alignments: every alignment of a cluster is handed to the processing of at least one (sub-)region - no exception *)
 Theorem C05_no_alignment_lost_default : forall file cluster a,
   cluster <> [] -> (forall b, In b cluster -> rs b < re b) -> incl cluster file -> In a cluster ->
   exists whole out, hull_of cluster = Some whole /\ iq_forward Default file cluster = Some out /\
-    (~ iq_corner whole a -> exists reg alns, In (reg, alns) out /\ In a alns).
+    exists reg alns, In (reg, alns) out /\ In a alns.
 Proof. exact iq_no_alignment_lost_default. Qed.
 Print Assumptions C05_no_alignment_lost_default.
 
 Theorem C05_no_alignment_lost_highmem : forall file cluster a,
   cluster <> [] -> (forall b, In b cluster -> rs b < re b) -> sorted cluster -> In a cluster ->
   exists whole out, hull_of cluster = Some whole /\ iq_forward HighMem file cluster = Some out /\
-    (~ iq_corner whole a -> exists reg alns, In (reg, alns) out /\ In a alns).
+    exists reg alns, In (reg, alns) out /\ In a alns.
 Proof. exact iq_no_alignment_lost_highmem. Qed.
 Print Assumptions C05_no_alignment_lost_highmem.
 
@@ -77,7 +78,7 @@ Print Assumptions C05_regions_disjoint.
 Theorem C05_every_alignment_forwarded : forall m file a,
   sorted file -> (forall b, In b file -> rs b < re b) -> In a file ->
   exists c whole out, In c (process file) /\ In a c /\ hull_of c = Some whole /\ iq_forward m file c = Some out /\
-    (~ iq_corner whole a -> exists reg alns, In (reg, alns) out /\ In a alns).
+    exists reg alns, In (reg, alns) out /\ In a alns.
 Proof. exact iq_every_alignment_forwarded. Qed.
 Print Assumptions C05_every_alignment_forwarded.
 
@@ -113,7 +114,51 @@ Theorem C05_chain_decidable : forall regs lo hi, chainb lo hi regs = true <-> ch
 Proof. exact chainb_iff. Qed.
 Print Assumptions C05_chain_decidable.
 
-(* ---- the code before the repairs (DESIGN section 6, #8, #21, #7), at the real constants *)
+(* ---- the code BEFORE fixes/C05_first_subregion_start.diff (known finding C05:one-base-alignment-on-bin-boundary): PARTIAL *)
+(* the sub-regions are the whole region, or consecutive non-empty intervals from max(256 * first bin + 1, r0) to r1 *)
+Theorem C05_split_regions_tile_prev : forall r count cov first last,
+  fst r <= snd r -> first = fst r / AP_COVERAGE_BIN -> last = snd r / AP_COVERAGE_BIN ->
+  (forall p, last < p -> cov p <= AP_ABS_COV_VALLEY) ->
+  exists regs, iq_split_regions_prev r count cov first last = Some regs /\
+    (regs = [r] \/ chain (Z.max (first * AP_COVERAGE_BIN + 1) (fst r)) (snd r) regs).
+Proof. exact iq_split_regions_tile_prev. Qed.
+Print Assumptions C05_split_regions_tile_prev.
+
+(* every alignment is handed out EXCEPT a one-base alignment on the first base of a cluster that starts on a bin boundary *)
+Theorem C05_no_alignment_lost_default_prev_partial : forall file cluster a,
+  cluster <> [] -> (forall b, In b cluster -> rs b < re b) -> incl cluster file -> In a cluster ->
+  exists whole out, hull_of cluster = Some whole /\ iq_forward_prev Default file cluster = Some out /\
+    (~ iq_corner whole a -> exists reg alns, In (reg, alns) out /\ In a alns).
+Proof. exact iq_no_alignment_lost_default_prev. Qed.
+Print Assumptions C05_no_alignment_lost_default_prev_partial.
+
+Theorem C05_no_alignment_lost_highmem_prev_partial : forall file cluster a,
+  cluster <> [] -> (forall b, In b cluster -> rs b < re b) -> sorted cluster -> In a cluster ->
+  exists whole out, hull_of cluster = Some whole /\ iq_forward_prev HighMem file cluster = Some out /\
+    (~ iq_corner whole a -> exists reg alns, In (reg, alns) out /\ In a alns).
+Proof. exact iq_no_alignment_lost_highmem_prev. Qed.
+Print Assumptions C05_no_alignment_lost_highmem_prev_partial.
+
+(* the exception is real: that code skips this one-base alignment, and emits no region at all for a deep cluster of them *)
+Example C05_boundary_corner_refuted :
+  out_regions (iq_forward_prev Default w_corner w_corner) = [(5121, 38144); (38145, 71999)] /\
+  existsb (Z.eqb 7777) (returned_ids (iq_forward_prev Default w_corner w_corner)) = false /\
+  existsb (Z.eqb 7777) (returned_ids (iq_forward_prev HighMem w_corner w_corner)) = false /\
+  iq_corner (5120, 71999) (5120, 5121, 7777).
+Proof. exact boundary_corner_refuted. Qed.
+Example C05_boundary_pile_refuted : iq_forward_prev Default w_corner_pile w_corner_pile = Some [].
+Proof. exact boundary_pile_refuted. Qed.
+(* after the repair the same inputs are complete *)
+Example C05_boundary_corner_repaired :
+  out_regions (iq_forward Default w_corner w_corner) = [(5120, 38144); (38145, 71999)] /\
+  existsb (Z.eqb 7777) (returned_ids (iq_forward Default w_corner w_corner)) = true /\
+  existsb (Z.eqb 7777) (returned_ids (iq_forward HighMem w_corner w_corner)) = true.
+Proof. exact boundary_corner_repaired. Qed.
+Example C05_boundary_pile_repaired : out_regions (iq_forward Default w_corner_pile w_corner_pile) = [(5120, 5120)] /\
+  length (returned_ids (iq_forward Default w_corner_pile w_corner_pile)) = 1100%nat.
+Proof. exact boundary_pile_repaired. Qed.
+
+(* ---- the code before the first two repairs (DESIGN section 6, #8, #21, #7), at the real constants *)
 Example C05_last_bin_refuted :
   out_regions (iq_forward_cur Default w_tail w_tail) = [(5000, 38144); (38145, 72448)] /\
   existsb (Z.eqb 9999) (returned_ids (iq_forward_cur Default w_tail w_tail)) = false.
@@ -133,10 +178,3 @@ Proof. exact last_bin_repaired. Qed.
 Example C05_single_bin_repaired : out_regions (iq_forward Default w_pile w_pile) = [(4900, 4999)] /\
   length (returned_ids (iq_forward Default w_pile w_pile)) = 1100%nat /\ length (returned_ids (iq_forward HighMem w_pile w_pile)) = 1100%nat.
 Proof. exact single_bin_repaired. Qed.
-(* the exception in the theorems is real: the repaired code still skips this one-base alignment *)
-Example C05_boundary_corner_refuted :
-  out_regions (iq_forward Default w_corner w_corner) = [(5121, 38144); (38145, 71999)] /\
-  existsb (Z.eqb 7777) (returned_ids (iq_forward Default w_corner w_corner)) = false /\
-  existsb (Z.eqb 7777) (returned_ids (iq_forward HighMem w_corner w_corner)) = false /\
-  iq_corner (5120, 71999) (5120, 5121, 7777).
-Proof. exact boundary_corner_refuted. Qed.
